@@ -6,8 +6,10 @@ package zzverifstubs
 import (
 	"crypto/aes"
 	"crypto/cipher"
+	"encoding/base64"
 	"errors"
 	"hash"
+	"io"
 
 	"github.com/dapr/kit/zzverif"
 )
@@ -40,6 +42,7 @@ func (b *Block) Decrypt(dst, src []byte) {
 func Init() {
 	zzverif.UFInverse("E", "D")
 	zzverif.UFLeftInverse("Seal", "OpenPT")
+	zzverif.UFLeftInverse("B64", "B64D")
 }
 
 func NewCipher(key []byte) (cipher.Block, error) {
@@ -212,3 +215,76 @@ func HmacNew(h func() hash.Hash, key []byte) hash.Hash {
 }
 
 func HmacEqual(a, b []byte) bool { return zzverif.EqBytes(a, b) }
+
+// ---- HKDF: the reader yields an uninterpreted function of (secret, salt, info) ------------------------------------
+
+type HKDFReader struct {
+	Secret, Salt, Info []byte
+	Served             int
+}
+
+func (h *HKDFReader) Read(p []byte) (int, error) {
+	// kit reads exactly one 32-byte key per HKDF instance
+	out := zzverif.UFBytes("HKDF", len(p), h.Secret, h.Salt, h.Info, []byte{byte(h.Served)})
+	copy(p, out)
+	h.Served++
+	return len(p), nil
+}
+
+func HKDFNew(hash func() hash.Hash, secret, salt, info []byte) io.Reader {
+	return &HKDFReader{Secret: append([]byte{}, secret...), Salt: append([]byte{}, salt...), Info: append([]byte{}, info...)}
+}
+
+// ---- base64 (standard, padded): an injective uninterpreted encoding with the real length/padding structure ----------
+
+func b64(src []byte) []byte {
+	n := (len(src) + 2) / 3 * 4
+	raw := zzverif.UFBytes("B64", n, src)
+	// the real alphabet/padding structure: '=' appears exactly in the padding positions
+	ok := true
+	pad := (3 - len(src)%3) % 3
+	for i := 0; i < n; i++ {
+		if i >= n-pad {
+			ok = zzverif.And(ok, raw[i] == '=')
+		} else {
+			ok = zzverif.And(ok, raw[i] != '=')
+		}
+	}
+	zzverif.Assume(ok)
+	return raw
+}
+
+func B64Encode(enc *base64.Encoding, dst, src []byte) {
+	if len(src) == 0 {
+		return
+	}
+	raw := b64(src)
+	copy(dst[:len(raw)], raw)
+}
+
+func B64Decode(enc *base64.Encoding, dst, src []byte) (int, error) {
+	l := len(src)
+	if l == 0 {
+		return 0, nil
+	}
+	if l%4 != 0 {
+		return 0, base64.CorruptInputError(l - l%4)
+	}
+	pad := 0
+	if src[l-1] == '=' {
+		pad++
+		if src[l-2] == '=' {
+			pad++
+		}
+	}
+	n := l/4*3 - pad
+	if n <= 0 {
+		return 0, base64.CorruptInputError(0)
+	}
+	cand := zzverif.UFBytes("B64D", n, src)
+	if !zzverif.EqBytes(b64(cand), src) {
+		return 0, base64.CorruptInputError(0)
+	}
+	copy(dst[:n], cand)
+	return n, nil
+}
